@@ -142,6 +142,7 @@ def body(m, cfg):
     kind = cfg["kind"]
     if kind == "array":
         op, ua, ub, dta, shape = cfg["op"], cfg["ua"], cfg["ub"], cfg["dta"], tuple(cfg["shape"])
+        m.dtype_tol(dta, cfg.get("dtb"))
         tag = f"{op}:{cfg['rhs']}:{C.DT_SHORT[dta]}:{C.DT_SHORT[cfg['dtb']]}"
         fa, da = C.fd(ua)
         fb, db = C.fd(ub)
